@@ -89,11 +89,18 @@ func (d *downloaderPP) Download(ctx context.Context, fromBlock uint64, downloade
 		default:
 		}
 
-		// Wait for new blocks before processing
-		fromBlock = d.WaitForNewBlocks(ctx, fromBlock)
-		for _, block := range d.GetEventsByBlockRange(ctx, fromBlock, fromBlock) {
+		// Wait until there is at least one block that has not been fetched yet, then fetch the
+		// events of every block from fromBlock up to the new tip (the tip can advance by more
+		// than one block between two polls)
+		lastBlock := d.WaitForNewBlocks(ctx, fromBlock-1)
+		if lastBlock < fromBlock {
+			// context cancelled while waiting
+			continue
+		}
+		for _, block := range d.GetEventsByBlockRange(ctx, fromBlock, lastBlock) {
 			downloadedCh <- *block
 		}
+		fromBlock = lastBlock + 1
 	}
 }
 
